@@ -91,8 +91,8 @@ def unit? : List String → Option (UnitSpec × List String)
   | "vi" :: v :: t => do pure (.internal (← parseInt? v), t)
   | "vd" :: v :: t => do pure (.internal (← parseInt? v), t)
   | "vg" :: v :: t => do pure (.internal (← parseInt? v), t)
-  | "em" :: t => some (.internal 786432, t)
-  | "ex" :: t => some (.internal 786432, t)
+  | "em" :: t => some (.internal C06.Text.emWidth, t)
+  | "ex" :: t => some (.internal C06.Text.exHeight, t)
   | "bad" :: t => some (.bad, t)
   | "fil0" :: t => some (.fil 0, t)
   | "fil1" :: t => some (.fil 1, t)
@@ -252,6 +252,44 @@ def handle (line : String) : String :=
   | ["tidx", fl, w] =>
     let fl := fl.toNat?.getD 0
     s!"{tidx constDigit false (toks fl w)} | {tidx Spec.constDigit true (toks fl w)}"
+  | ["kx", x, n, dd] =>
+    match parseInt? x, parseInt? n, parseInt? dd with
+    | some x, some n, some dd =>
+      let m := match xnOverD x n dd with
+        | .ok (q, r) => s!"ok {q} {r}" | .overflow => "overflow" | .panic => "panic"
+      let sp := Spec.xnOverD x n dd
+      let s := if 0 ≤ n ∧ n ≤ 65536 ∧ 0 < dd ∧ dd ≤ 65536 then (if sp.2.2 then "overflow" else s!"ok {sp.1} {sp.2.1}") else "undef"
+      s!"{m} | {s}"
+    | _, _, _ => "bad-request"
+  | ["kn", x, n, y] =>
+    match parseInt? x, parseInt? n, parseInt? y with
+    | some x, some n, some y =>
+      let m := match nxPlusY x n y with
+        | .ok r => s!"ok {r}" | .overflow => "overflow" | .panic => "panic"
+      let sp := Spec.nxPlusY n x y
+      let s := if -maxDimen ≤ y ∧ y ≤ maxDimen then (if sp.err then "overflow" else s!"ok {sp.val}") else "undef"
+      s!"{m} | {s}"
+    | _, _, _ => "bad-request"
+  | ["ks", ip, f, u] =>
+    match parseInt? ip, parseInt? f, punit? u with
+    | some ip, some f, some u =>
+      let m := match scaledNew ip f u with
+        | .ok r => s!"ok {r}" | .overflow => "overflow" | .panic => "panic"
+      let s := if 0 ≤ ip ∧ 0 ≤ f ∧ f ≤ 65536 then
+          (match Spec.units ip f false 0 (.phys u) with
+           | .ok v e _ => if e > 0 then "overflow" else s!"ok {v}"
+           | .undef => "undef")
+        else "undef"
+      s!"{m} | {s}"
+    | _, _, _ => "bad-request"
+  | ["kf", ds] =>
+    match digits? ds with
+    | some ds => s!"ok {fromDecimalDigits ds} | ok {Spec.roundDecimals ds}"
+    | none => "bad-request"
+  | ["ki", i] =>
+    match parseInt? i with
+    | some i => (match fromInteger i with | some v => s!"ok {v} | ok {v}" | none => "overflow | overflow")
+    | none => "bad-request"
   | ["ps", s] =>
     match parseInt? s with
     | some s => psOne s
